@@ -178,16 +178,24 @@ def layout(repo, res):
     arr = repo.mod(ARR)
     rd = arr.func("unyt_array.__reduce__")
     res.fn(rd)
-    txt = {norm(n.targets[0]): norm(n.value) for n in rd.body if isinstance(n, ast.Assign)}
-    res.check(txt.get("unit_state") == "(((str(self.units), self.units.registry.lut),) + obj_state[:],)", "reduce:state", rd.where(), "the pickled state is ndarray's state with one (unit text, registry table) pair prepended", found=txt.get("unit_state"), rid=r2)
-    res.check(txt.get("np_ret") == "super().__reduce__()" and txt.get("obj_state") == "np_ret[2]" and txt.get("new_ret") == "np_ret[:2] + unit_state + np_ret[3:]", "reduce:frame", rd.where(), "the reduce tuple of ndarray is reused with only the state element replaced", rid=r2)
+    from engine.sem import summarise
+
+    sums = summarise(rd)
+    R = "super().__reduce__()"
+    want = f"{R}[:2] + (((str(self.units), self.units.registry.lut),) + {R}[2][:],) + {R}[3:]"
+    ok = len(sums) == 1 and sums[0].kind == "return" and sums[0].value in (want, want.replace(f"{R}[2][:]", f"{R}[2]"))
+    res.check(ok, "reduce:state", rd.where(), "the pickled state is ndarray's state with one (unit text, registry table) pair prepended; the rest of ndarray's reduce tuple is reused unchanged", want, [x.value for x in sums], rid=r2)
+    res.check(ok and sums[0].effects.count(R) == 1, "reduce:frame", rd.where(), "ndarray's __reduce__ is called once and only its state element is replaced", rid=r2)
     ss = arr.func("unyt_array.__setstate__")
     res.fn(ss)
     st = ss.params[1]
-    t = [norm(s) for s in ss.body]
-    res.check(f"super().__setstate__({st}[1:])" in t, "setstate:ndarray-part", ss.where(), "ndarray receives the state without the prepended pair", rid=r2)
-    res.check(f"unit, lut = {st}[0]" in t or f"(unit, lut) = {st}[0]" in t, "setstate:pair", ss.where(), "exactly two fields are unpacked from the prepended pair", rid=r2)
-    res.check("self.units = Unit(unit, registry=registry)" in t, "setstate:unit", ss.where(), "the unit is rebuilt from its text in the restored registry", rid=r2)
+    sums = summarise(ss)
+    eff = sums[0].effects if len(sums) == 1 else []
+    res.check(f"super().__setstate__({st}[1:])" in eff, "setstate:ndarray-part", ss.where(), "ndarray receives the state without the prepended pair", found=eff, rid=r2)
+    unit_store = [e for e in eff if e.startswith("self.units = ")]
+    ok = len(unit_store) == 1 and unit_store[0].startswith(f"self.units = Unit({st}[0][0], registry=") and f"{st}[0][1]" in unit_store[0] and not any(f"{st}[0][{k}]" in " ".join(eff) for k in (2, 3))
+    res.check(ok, "setstate:pair", ss.where(), "exactly two fields are taken from the prepended pair: the unit text (element 0) and the table (element 1)", found=unit_store, rid=r2)
+    res.check(ok and "UnitRegistry(" in unit_store[0] and f"lut=_correct_old_unit_registry({st}[0][1])" in unit_store[0], "setstate:unit", ss.where(), "the unit is rebuilt from its text in a registry built from the saved table (after the legacy-format fixer)", found=unit_store, rid=r2)
 
 
 def rebuilt_from_table(repo, res):
